@@ -71,6 +71,22 @@ func c04Check(in []byte) (nontrivial bool, class string, err error) {
 			return false, "oracle", errOracle // ParseFloat must accept every JSON number literal
 		}
 	}
+	oracle := "strconv.ParseFloat"
+	// The property is correct rounding of the exact decimal value. strconv is that, except
+	// on the literals ref.RiskyNumber describes; there (and on a quarter of the short
+	// literals, as a standing cross-check of strconv) exact rational arithmetic decides.
+	if ref.RiskyNumber(tok) || len(tok) <= 64 && core.Hash(tok)%4 == 0 {
+		ef, eovf := ref.ExactFloat(tok)
+		if eovf != wantErr || !eovf && math.Float64bits(ef) != math.Float64bits(want) {
+			oracle = "exact rational rounding (strconv.ParseFloat differs)"
+		}
+		want, wantErr = ef, eovf
+		if eovf {
+			perr = strconv.ErrRange
+		} else {
+			perr = nil
+		}
+	}
 	nontrivial = floatNontrivial(tok)
 	class = "finite"
 	switch {
@@ -83,11 +99,11 @@ func c04Check(in []byte) (nontrivial bool, class string, err error) {
 	}
 	got, p, gerr := rjson.ReadFloat64(in)
 	if (gerr != nil) != wantErr {
-		return nontrivial, class, fmt.Errorf("ReadFloat64(%.80q): err=%v value=%v; strconv.ParseFloat: value=%v err=%v", in, gerr, got, want, perr)
+		return nontrivial, class, fmt.Errorf("ReadFloat64(%.80q): err=%v value=%v; %s: value=%v err=%v", in, gerr, got, oracle, want, perr)
 	}
 	if !wantErr {
 		if math.Float64bits(got) != math.Float64bits(want) {
-			return nontrivial, class, fmt.Errorf("ReadFloat64(%.80q) = %v (bits %#x); strconv.ParseFloat gives %v (bits %#x)", in, got, math.Float64bits(got), want, math.Float64bits(want))
+			return nontrivial, class, fmt.Errorf("ReadFloat64(%.80q) = %v (bits %#x); %s gives %v (bits %#x)", in, got, math.Float64bits(got), oracle, want, math.Float64bits(want))
 		}
 		if p != end {
 			return nontrivial, class, fmt.Errorf("ReadFloat64(%.80q) returned p=%d; the literal ends at %d", in, p, end)
